@@ -21,6 +21,9 @@ def build_ontology(spec):
         G.build_source(o, spec['source'])
     if spec.get('et'):
         G.build_eventtype(o, spec['et'])
+    for kind, s in spec.get('extra', []):
+        # further definitions of a kind the ontology already has (whole-ontology comparisons walk all of them)
+        {'objecttype': G.build_objecttype, 'concept': G.build_concept}[kind](o, s)
     return o
 
 
